@@ -237,6 +237,31 @@ class Model:
                     elif a.name == 'pycdlib' and is_tool:
                         mi.aliases[a.asname or 'pycdlib'] = '<pkg>'
         self._scan_body(mi, tree.body, None, None)
+        self._resolve_handler_types(mi)
+
+    def _resolve_handler_types(self, mi):
+        """`except NAME:` where NAME is a module-level tuple of exception classes (bound once, never
+        rebound through `global`) is analysed as `except (A, B, ...):` - every rule that looks at
+        handler types sees the classes and not the name of the tuple."""
+        import copy
+        for h in ast.walk(mi.tree):
+            if not (isinstance(h, ast.ExceptHandler) and isinstance(h.type, ast.Name) and h.type.id in mi.consts):
+                continue
+            val = mi.consts[h.type.id]
+            if not (isinstance(val, ast.Tuple) and all(isinstance(e, (ast.Name, ast.Attribute)) for e in val.elts)):
+                continue
+            nbind = 0
+            for x in ast.walk(mi.tree):
+                if isinstance(x, ast.Name) and x.id == h.type.id and isinstance(x.ctx, (ast.Store, ast.Del)):
+                    nbind += 1
+                elif isinstance(x, ast.Global) and h.type.id in x.names:
+                    nbind += 2
+            if nbind != 1:
+                continue
+            new = copy.deepcopy(val)
+            for x in ast.walk(new):
+                ast.copy_location(x, h.type)
+            h.type = new
 
     def _scan_body(self, mi, body, cls, parent_func):
         for node in body:
